@@ -23,6 +23,10 @@ def main():
     Xl = rs.normal(size=(260, 6)).astype(np.float32); Xl[:100] += 3
     Y = rs.normal(size=(12, 5)).astype(np.float32); Yl = rs.normal(size=(9, 6)).astype(np.float32)
     out = {"threads": numba.get_num_threads()}
+    if len(sys.argv) > 3 and sys.argv[3] == "warmfirst":
+        # the very first thing this process does is an unseeded (parallel-kernel) fit and transform
+        w = umap.UMAP(n_epochs=5).fit(Xl[:90]); w.transform(Yl)
+        out["warmfirst"] = True
     def rec(name, data, new, **kw):
         m = umap.UMAP(random_state=seed + 11, n_epochs=kw.pop("n_epochs", 25), **kw).fit(data)
         r = {"graph": hg(m.graph_), "embedding": h(m.embedding_), "n_jobs_after": m.n_jobs}
